@@ -34,6 +34,7 @@ THEOREMS = [
     "AiuVerif.C08.export_sorted_all",
     "AiuVerif.C08.tie_rule",
     "AiuVerif.C08.intermediate_invisible",
+    "AiuVerif.C08.sort_key_eq_export_key",   # no non-slice event can carry dur into the final sort, for every switch set
 ]
 RULE = ("stage level: random event lists (1..40 events, 1..3 pids x 1..3 tids, ph in X/C/M/s/f, ts from a small pool so "
         "that ties are frequent, plus sub-nanosecond neighbours k/8192 us, dur missing/equal/different) through the real "
@@ -46,7 +47,10 @@ ASSUMPTIONS = ["every event reaching the final sort carries `ts` (EventProcessor
                "entrance; every synthesized event of the real stages is checked by the e2e oracle)",
                "the exported key equals the sort key only if no non-X event reaches the final sort with a `dur`; this is "
                "checked on the real output by the e2e oracle, not proved (the producers are spread over many stages)"]
-NOT_YET_PROVED = ["sort_key_eq_export_key: 'no counter/flow/metadata event carries dur at the final sort' for the composed pipeline"]
+NOT_YET_PROVED = ["sort_key_eq_export_key ('no counter/flow/metadata event carries dur at the final sort') is proved for every "
+                  "switch combination over the stage-effect table of Model/Export.lean; that table itself (which stage puts a "
+                  "dur on a non-slice event, which removes it) is not derived from the stage code but re-observed on the real "
+                  "per-stage streams of every -I run of C02's check and by this check's e2e oracle"]
 LEVEL_TEXT = ("Lean theorems: the batch semantics of the real sort stage is 'unqueued events, then a stable merge sort' "
               "(sort_batch); for ANY stages in front of the final sort and ANY input the engine output is a sorted permutation "
               "of what reaches that stage (export_sorted/_all, via C03.run_eq_runSpec: nothing buffered anywhere can escape the "
@@ -193,7 +197,33 @@ def e2e_run(job):
     if r["error"] or r["rc"] != 0 or evs is None:
         return {"err": f"rc={r['rc']} error={r['error']}", "viol": None, "n": 0, "ties": 0, "nonX_dur": None}
     ties = sum(1 for a, b in zip(evs, evs[1:]) if a.get("ts") == b.get("ts"))
-    return {"err": None, "viol": order_violation(evs), "n": len(evs), "ties": ties}
+    viol = order_violation(evs)
+    if not viol and spec.get("probe_ties"):
+        # second pass: short slices placed EXACTLY at the timestamps of synthesized duration-less events that no
+        # slice shares yet (the end of a flow arrow lies 1 ns before the end of its receive slice, a value no input
+        # would hit by chance): the statement's tie rule then applies to them
+        starts = {e["ts"] for e in evs if e.get("ph") == "X"}
+        lone = sorted({e["ts"] for e in evs if e.get("ph") in ("f", "s", "C", "t") and e["ts"] not in starts})
+        pick = lone[:: max(1, len(lone) // 6)][:6]
+        if pick:
+            f0 = sorted(files)[0]
+            pid0 = next((e["pid"] for e in files[f0] if "pid" in e), 0)
+            for j, t in enumerate(pick):
+                x = {"ph": "X", "name": "tie_probe", "pid": pid0, "tid": 505, "ts": t, "dur": [2.0, 0.5][j % 2],
+                     "args": {"uid": f"tie{j}"}}
+                # never between a B and its E (they are adjacent in the generated files)
+                pos = next((i for i, e in enumerate(files[f0]) if e.get("ts", 0) > t and e.get("ph") != "E"),
+                           len(files[f0]))
+                files[f0].insert(pos, x)
+            r2 = stage.e2e(argv, files)
+            if r2["error"] or r2["rc"] != 0 or r2["events"] is None:
+                return {"err": f"tie-probe pass: rc={r2['rc']} error={r2['error']}", "viol": None, "n": len(evs), "ties": ties}
+            evs2 = r2["events"]
+            viol = order_violation(evs2)
+            if viol:
+                viol = f"with short slices added at the timestamps {pick} of synthesized events: " + viol
+            ties += sum(1 for a, b in zip(evs2, evs2[1:]) if a.get("ts") == b.get("ts"))
+    return {"err": None, "viol": viol, "n": len(evs), "ties": ties}
 
 
 def oracle_on_case(ctx: Ctx, case, verbose=False):
@@ -269,6 +299,8 @@ def run(ctx: Ctx):
             opts_sets = opts_sets + [["--flow", "-R"]]
         for o in opts_sets:
             jobs.append((spec, o))
+        if spec["R"] >= 2 and spec["groups"] >= 1:
+            jobs.append((dict(spec, probe_ties=True), ["--flow"] + ([] if s % 2 else ["-M"])))
     results = par.pmap(e2e_run, jobs)
     for (spec, o), res in zip(jobs, results):
         case = {"kind": "e2e", "spec": spec, "opts": o}
